@@ -247,6 +247,9 @@ def main(argv):
     if len(argv) < 1:
         print(__doc__)
         return 2
+    import logging
+
+    logging.getLogger("matplotlib").setLevel(logging.ERROR)
     prop_id = argv[0].upper()
     t0 = time.time()
     seed = int(os.environ.get("VERIF_SEED", "1") or 1)
